@@ -113,6 +113,16 @@ CHECKS = {
               "object), pieces non-periodic, each piece equals the original at random parameters of its sub-interval, split-then-append and subdivide reproduce the map."),
         note=TB + " C07: known findings for periodic directions with fewer than order+continuity functions and for split at end() of non-open bases.",
         design='DESIGN.md section 8, C07'),
+    'C08': dict(
+        engine='objdiff',
+        technique='Coq proof (wrap invariance of the evaluator normalisation; dipole lemma for the jump between span polynomials; lifting lemma for rolls) + differential run of the extracted transcription of make_periodic / lower_periodic vs the implementation',
+        text=("PARTIAL proof level. Theorems in Properties/C08.v: the evaluator's normalised parameter is invariant under adding integer multiples of the period; the jump between adjacent "
+              "span polynomials at a knot is a dipole that vanishes when the multiplicity is at most the degree, so one-sided limits of B-splines agree there; rolls of the control net "
+              "commute with evaluation through the lifting lemma. Not proved: smoothness across the seam for the wrapped sums, the open/close round trip, lower_periodic preserving the map; "
+              "these are tied by the transcription (Model/Periodic.v, Model/Split.v) + correspondence and evaluated on the implementation: evaluation at t and t+z*period, derivatives up to "
+              "the periodic continuity from both sides of the seam, split(seam) then make_periodic restores knots and control points, lower_periodic to every level keeps the map."),
+        note=TB + " C08: known findings: small periodic bases (fewer than order+continuity functions) and the control points after open/close for continuity >= 1 with non-uniform seam knots.",
+        design='DESIGN.md section 8, C08'),
 }
 
 PENDING_REASON = "not claimed in this revision: model/theorems for this property are still being built (see DESIGN.md section 8 for the plan)"
